@@ -472,10 +472,10 @@ func (m *Model) Expect(o Op, writable bool) Exp {
 		}
 		return Exp{}
 	case "ZRem":
-		_, bucketExists := m.Z[o.B]
+		bucketExists := len(m.Z[o.B]) > 0 // an emptied sorted set and a missing one are the same observation (a Merge + reopen drops the bucket)
 		return Exp{ErrOK: !bucketExists || len(o.Key) == 0}
 	case "ZRemRangeByRank":
-		_, bucketExists := m.Z[o.B]
+		bucketExists := len(m.Z[o.B]) > 0 // an emptied sorted set and a missing one are the same observation (a Merge + reopen drops the bucket)
 		return Exp{ErrOK: !bucketExists}
 	case "ZPopMax", "ZPeekMax", "ZPopMin", "ZPeekMin":
 		ns := m.zsorted(o.B)
@@ -487,16 +487,16 @@ func (m *Model) Expect(o Op, writable bool) Exp {
 		}
 		return Exp{V: zOne(&ns[0])}
 	case "ZRangeByScore":
-		_, bucketExists := m.Z[o.B]
+		bucketExists := len(m.Z[o.B]) > 0 // an emptied sorted set and a missing one are the same observation (a Merge + reopen drops the bucket)
 		return Exp{V: zStr(zByScore(m.zsorted(o.B), o)), ErrOK: !bucketExists}
 	case "ZCount":
-		_, bucketExists := m.Z[o.B]
+		bucketExists := len(m.Z[o.B]) > 0 // an emptied sorted set and a missing one are the same observation (a Merge + reopen drops the bucket)
 		return Exp{V: strconv.Itoa(len(zByScore(m.zsorted(o.B), o))), ErrOK: !bucketExists}
 	case "ZRangeByRank":
-		_, bucketExists := m.Z[o.B]
+		bucketExists := len(m.Z[o.B]) > 0 // an emptied sorted set and a missing one are the same observation (a Merge + reopen drops the bucket)
 		return Exp{V: zStr(zByRank(m.zsorted(o.B), o.I, o.J)), ErrOK: !bucketExists}
 	case "ZRank", "ZRevRank":
-		_, bucketExists := m.Z[o.B]
+		bucketExists := len(m.Z[o.B]) > 0 // an emptied sorted set and a missing one are the same observation (a Merge + reopen drops the bucket)
 		ns := m.zsorted(o.B)
 		for i, n := range ns {
 			if n.K == string(o.Key) {
@@ -519,10 +519,10 @@ func (m *Model) Expect(o Op, writable bool) Exp {
 		}
 		return Exp{Err: true}
 	case "ZCard":
-		_, bucketExists := m.Z[o.B]
+		bucketExists := len(m.Z[o.B]) > 0 // an emptied sorted set and a missing one are the same observation (a Merge + reopen drops the bucket)
 		return Exp{V: strconv.Itoa(len(m.Z[o.B])), ErrOK: !bucketExists || len(m.Z[o.B]) == 0}
 	case "ZMembers":
-		_, bucketExists := m.Z[o.B]
+		bucketExists := len(m.Z[o.B]) > 0 // an emptied sorted set and a missing one are the same observation (a Merge + reopen drops the bucket)
 		ns := m.zsorted(o.B)
 		sort.Slice(ns, func(i, j int) bool { return ns[i].K < ns[j].K })
 		return Exp{V: zStr(ns), ErrOK: !bucketExists || len(ns) == 0}
